@@ -23,8 +23,8 @@ DISTINCT_KEY = "documents"
 NSHARDS = {"quick": 8, "thorough": 16}
 FLOORS = {"quick": {"documents_judged": 600, "output_comments_checked": 5000, "placed_trailing_checked": 800, "placed_above_checked": 400,
                     "content_checks": 600},
-          "thorough": {"documents_judged": 15000, "output_comments_checked": 150000, "placed_trailing_checked": 40000,
-                       "placed_above_checked": 20000, "content_checks": 15000}}
+          "thorough": {"documents_judged": 10000, "output_comments_checked": 100000, "placed_trailing_checked": 25000,
+                       "placed_above_checked": 12000, "content_checks": 10000}}
 ASSUMPTIONS = ["mf/reader.py's comment scanner (agrees with the lexer's capture on all corpus comments)",
                "the printer is documented and tested to merge several comments of one keyword with single spaces: joins are decomposed"]
 DOMAIN = gen.DOMAIN + ["documents whose strings contain the default quote character or a backslash are skipped",
